@@ -203,10 +203,23 @@ def build_coq_models_only():
 # ---------------------------------------------------------------- Go side
 
 def build_harness(tags=("verif",), race=False):
-    """go build the harness against /repo's working tree. returns (ok, path, log)."""
+    """go build the harness against REPO's working tree (default /repo). returns (ok, path, log).
+    With VERIF_REPO set to another checkout (used only to try seeded changes in scratch
+    worktrees) a private copy of the harness module with the replace directive rewritten is built."""
     name = "harness_" + "_".join(tags) + ("_race" if race else "")
-    exe = os.path.join(BUILD, name)
     hdir = os.path.join(VERIF, "harness")
+    if REPO != "/repo":
+        tagh = hashlib.sha1(REPO.encode()).hexdigest()[:10]
+        name += "_" + tagh
+        alt = os.path.join(BUILD, "harness_src_" + tagh)
+        os.makedirs(alt, exist_ok=True)
+        for f in os.listdir(hdir):
+            if f.endswith(".go") or f in ("go.mod",):
+                shutil.copy(os.path.join(hdir, f), os.path.join(alt, f))
+        gm = open(os.path.join(alt, "go.mod")).read().replace("=> /repo", "=> " + REPO)
+        open(os.path.join(alt, "go.mod"), "w").write(gm)
+        hdir = alt
+    exe = os.path.join(BUILD, name)
     with Lock("go_" + name):
         try:
             shutil.copy(os.path.join(REPO, "go.sum"), os.path.join(hdir, "go.sum"))
@@ -377,8 +390,9 @@ def extraction_directives():
 
 def finish(ctx, spec):
     """write evidence + replay files, print verdict lines, return exit code."""
-    os.makedirs(os.path.join(VERIF, "evidence"), exist_ok=True)
-    rdir = os.path.join(BUILD, "replay")
+    evdir = os.environ.get("VERIF_EVIDENCE_DIR", os.path.join(VERIF, "evidence"))
+    os.makedirs(evdir, exist_ok=True)
+    rdir = os.path.join(BUILD, "replay" if REPO == "/repo" else "replay_" + hashlib.sha1(REPO.encode()).hexdigest()[:10])
     os.makedirs(rdir, exist_ok=True)
     proof = ctx.proof or dict(ok=False, theorems=[], closed=0, axioms=[], log="not run")
     nviol = 0
@@ -436,7 +450,7 @@ def finish(ctx, spec):
         "wall_s": round(time.time() - ctx.t0, 2),
         "violations": nviol,
     }
-    json.dump(ev, open(os.path.join(VERIF, "evidence", ctx.pid + ".json"), "w"), indent=1, default=str)
+    json.dump(ev, open(os.path.join(evdir, ctx.pid + ".json"), "w"), indent=1, default=str)
     for l in lines:
         print(l)
     print("%s %s tier=%s seed=%d evaluations=%d distinct=%d theorems=%d/%d wall=%.1fs" % (
